@@ -68,7 +68,7 @@ func judge(t *rapid.T, p ls.Program, what string) {
 }
 
 func TestGeneratedCancel(t *testing.T) {
-	rt.Check(t, 2000, 200000, func(t *rapid.T) {
+	rt.Check(t, 2000, 3000000, func(t *rapid.T) {
 		judge(t, ls.GenProgram(bias).Draw(t, "program"), "generated")
 	})
 	checkHooks(t)
@@ -80,7 +80,7 @@ func TestEnumeratedCancelPoints(t *testing.T) {
 	for i, tpl := range templates {
 		tpl := tpl
 		t.Run(fmt.Sprintf("T%03d", i), func(t *testing.T) {
-			rt.Check(t, 4, 500, func(t *rapid.T) {
+			rt.Check(t, 4, 4000, func(t *rapid.T) {
 				lanes := rapid.IntRange(1, 4).Draw(t, "laneSize")
 				queue := rapid.IntRange(0, 3).Draw(t, "queueSize")
 				load := ls.GenProgram(loadBias).Draw(t, "load")
